@@ -13,11 +13,20 @@
 //   owner is no longer known as aborted reads as a committed delete.
 //   C03: a rolled-back DELETE leaves no effect -- the row survives VACUUM and the mark is gone.
 //@trusted [env] Tuple::{from_slice_unchecked, xmin, xmax, is_deleted, full_data, clear_delete_mark} read / rewrite the tuple header (Kani unit tuplelayout: header_roundtrip, tuple_clear_delete_mark); Tuple::vaccum_with keeps a prefix of the image that contains the header (unit versionchain: vacuum.keeps_exactly_the_deltas_at_or_above_horizon), so creator and deleter are unchanged; Snapshot::is_transaction_aborted is membership in the aborted set (unit visibility)
-//@trusted [sub] `total_freed += freed` on the captured counter becomes the env call add_freed(total_freed, freed) on the `&mut usize` parameter (R8): exact when the sum fits, unspecified otherwise (the counter is a statistic; its overflow is not decided here); `x.xmax().is_some_and(|d| f(d))`, where it occurs, is rewritten to the equivalent `match`
+//@trusted [sub] `total_freed += freed` on the captured counter becomes the env call add_freed(total_freed, freed) on the `&mut usize` parameter (R8): exact when the sum fits, unspecified otherwise (the counter is a statistic; its overflow is not decided here); Option::{is_some_and, is_none_or} at assumed std specifications (the closure's own contract)
 //@trusted [outside] the two loops after the scan (Btree::update of the rewritten rows, Btree::remove_tuple of the dead ones) and the clean-up of the coordinator / aborted set in Database::vacuum
 use vstd::prelude::*;
 
 verus! {
+
+// std specifications vstd does not carry (sound: they say what the std functions do)
+pub assume_specification<T, F: FnOnce(T) -> bool>[ Option::<T>::is_none_or ](o: Option<T>, f: F) -> (r: bool)
+    requires o matches Some(v) ==> f.requires((v,)),
+    ensures o is None ==> r, o matches Some(v) ==> f.ensures((v,), r);
+pub assume_specification<T, F: FnOnce(T) -> bool>[ Option::<T>::is_some_and ](o: Option<T>, f: F) -> (r: bool)
+    requires o matches Some(v) ==> f.requires((v,)),
+    ensures o is None ==> !r, o matches Some(v) ==> f.ensures((v,), r);
+
 
 pub struct TupleError { pub code: u8 }
 pub type TupleResult<T> = Result<T, TupleError>;
@@ -85,7 +94,6 @@ pub open spec fn extends(after: Seq<Tuple>, before: Seq<Tuple>) -> bool {
 
 //@fn crates/axmos-db/src/schema/catalog.rs | impl Catalog | vacuum_btree
 //@ arm /tree\.with_cell_at\(pos, \|bytes\| \{/ => fn vacuum_cell(bytes: &[u8], snapshot: &Snapshot, oldest_active_xid: TransactionId, schema: &Schema, tuples_to_remove: &mut Vec<Tuple>, tuples_to_vaccum: &mut Vec<Tuple>, total_freed: &mut usize) -> Result<(), TupleError>
-//@ sub? /(\w+)\s*\.xmax\(\)\s*\.is_some_and\(\|(\w+)\|\s*([\w.]+\(\w+\))\)/ => (match \1.xmax() { Some(\2) => \3, None => false })
 //@ sub /total_freed \+= freed;/ => add_freed(total_freed, freed);
 //@ ensures
 //@   [C13,C03:vacuum.removes_only_rows_no_reader_can_see] extends(final(tuples_to_remove)@, old(tuples_to_remove)@) && (forall|i: int| old(tuples_to_remove)@.len() <= i < final(tuples_to_remove)@.len() ==> dead(snapshot, (#[trigger] final(tuples_to_remove)@[i]).src()) && final(tuples_to_remove)@[i].src() == bytes@),
